@@ -260,16 +260,30 @@ def extract(repo):
     if not m:
         raise ValueError("fedex main: `if( no_warnings ) ERRORset_all_warnings( . )` not found")
     default_override = m.group(1) in ("1", "true")
-    # gates: positions of parse, resolve, backend, and the `if( ERRORoccurred ) { result = EXPRESS_fail( model ); ... return result; }` blocks
-    gate_re = re.compile(r"if\s*\(\s*ERRORoccurred\s*\)\s*\{\s*result\s*=\s*EXPRESS_fail\s*\(\s*model\s*\)\s*;[^}]*?return\s+result\s*;\s*\}")
-    gates = [g.start() for g in gate_re.finditer(mainb)]
+    # gates: where main() looks at ERRORoccurred between its three phases.  Two forms are recognised:
+    #  (a) after a phase:  if( ERRORoccurred ) { result = EXPRESS_fail( model ); ... return result; }
+    #  (b) one flag:       failed = ERRORoccurred;  after a phase, the next phases guarded by `!failed &&`, and
+    #                      result = failed ? EXPRESS_fail( model ) : EXPRESS_succeed( model );  at the end
+    # a gate is "after phase P" when main() reads ERRORoccurred after P and before the next phase / the final verdict
     p_parse = mainb.find("EXPRESSparse(")
     p_res = mainb.find("EXPRESSresolve(")
-    m = re.search(r"if\s*\(\s*EXPRESSbackend\s*\)\s*\{\s*\(\s*\*\s*EXPRESSbackend\s*\)\s*\(\s*model\s*\)\s*;", mainb)
+    m = re.search(r"if\s*\(\s*(?:!\s*failed\s*&&\s*)?EXPRESSbackend\s*\)\s*\{\s*\(\s*\*\s*EXPRESSbackend\s*\)\s*\(\s*model\s*\)\s*;", mainb)
     p_back = m.start() if m else -1
     p_succ = mainb.find("EXPRESS_succeed(")
-    if min(p_parse, p_res, p_back, p_succ) < 0:
-        raise ValueError("fedex main: parse/resolve/backend/succeed calls not found")
+    if min(p_parse, p_res, p_back, p_succ) < 0 or not (p_parse < p_res < p_back < p_succ):
+        raise ValueError("fedex main: parse/resolve/backend/succeed calls not found in this order")
+    gate_re = re.compile(r"if\s*\(\s*ERRORoccurred\s*\)\s*\{\s*result\s*=\s*EXPRESS_fail\s*\(\s*model\s*\)\s*;[^}]*?return\s+result\s*;\s*\}")
+    gates = [g.start() for g in gate_re.finditer(mainb)]
+    flag = [g.start() for g in re.finditer(r"\bfailed\s*=\s*ERRORoccurred\s*;", mainb)]
+    if flag:
+        if gates:
+            raise ValueError("fedex main: both forms of the ERRORoccurred gates at once")
+        if not re.search(r"result\s*=\s*failed\s*\?\s*EXPRESS_fail\s*\(\s*model\s*\)\s*:\s*EXPRESS_succeed\s*\(\s*model\s*\)\s*;", mainb) or \
+           not re.search(r"if\s*\(\s*!\s*failed\s*&&\s*resolve\s*\)", mainb) or not re.search(r"if\s*\(\s*!\s*failed\s*&&\s*EXPRESSbackend\s*\)", mainb):
+            raise ValueError("fedex main: the `failed` flag form is not the modelled one")
+        gates = flag
+    elif not re.search(r"if\s*\(\s*resolve\s*\)\s*\{", mainb):
+        raise ValueError("fedex main: `if( resolve )` not found")
     gate_after_parse = any(p_parse < g < p_res for g in gates)
     gate_after_resolve = any(p_res < g < p_back for g in gates)
     gate_after_backend = any(p_back < g < p_succ for g in gates)
